@@ -33,9 +33,16 @@ Example C15_nonvacuous :
   leaves_childless t = true /\ couplers_trainable t = true /\ validate t = 3%nat /\ validate (fixt false t) = 0%nat /\ tree_couples (fixt false t) = false.
 Proof. vm_compute. repeat split. Qed.
 
+(* fix() returns a module in the train / eval mode of its argument, at the root and at every replaced sub-module (generated fixer: the
+   replacement takes the mode of the module it replaces; dtype, device and frozen parameters are pinned in the generator and compared on the
+   real code by the harness) *)
+Theorem C15_fix_keeps_mode (b : bool) (t : tree) : n_training (fixt b t) = n_training t /\ n_training (fixer b t) = n_training t.
+Proof. exact (conj (fix_keeps_mode b t) (fixer_keeps_mode b t)). Qed.
+
 Print Assumptions C15_validate_sound_partial.
 Print Assumptions C15_make_private_guards.
 Print Assumptions C15_make_private_rejects_eval.
 Print Assumptions C15_fix_then_valid.
 Print Assumptions C15_fix_identity_when_nothing_to_fix.
 Print Assumptions C15_instancenorm_fixer_drops_buffers.
+Print Assumptions C15_fix_keeps_mode.
